@@ -6,7 +6,8 @@ from concurrent.futures import ThreadPoolExecutor
 import vlib
 
 INVS = ("TypeOK OnlyAuthentic NoVerifierRejects RealNotBypassed RejectKeepsState Complete "
-        "Monotone CacheIsLastAccepted ReplayRejected ReplayAsFresh ReplayWellFormed KnownIsPresented ReplaySourced")
+        "Monotone CacheIsLastAccepted ReplayRejected ReplayAsFresh ReplayWellFormed KnownIsPresented ReplaySourced "
+        "FloorIsOfColdKey CounterFloorSurvivesChurn ProbesTellFloor")
 
 
 def _rows(r, what):
@@ -73,7 +74,15 @@ def run(chk, replay=None):
                 "signature of its certificate with another KES key / issue number / KES period); the model tracks "
                 "which genuine messages were presented (known) and TLC checks that a replay gets the verdict of the "
                 "made-up fault (rejected, nothing changes; only a KES replay passes where no KES signature is checked "
-                "at all). TLC emits an access history for every "
+                "at all). Churn dimension: the state is changed from outside in the middle of a history (Reg/Unreg of "
+                "a pool, eviction, verifier set, insecure switched); the counter floor belongs to the cold key: no such "
+                "call but the eviction of that pool's entry touches a floor (FloorIsOfColdKey), so a counter below one "
+                "accepted earlier is rejected however often the pool was unregistered and registered again in between "
+                "(CounterFloorSurvivesChurn); every history of 4 calls (thorough: 5) of genuine messages and Reg / Unreg / "
+                "Evict on one pool is generated, and behind every state-changing transition of the covers the probes "
+                "of the state reached (good id and certificate, KES good or bad, every pool and counter, leaving the "
+                "state unchanged) are run, so what the transition did to the hidden state shows (ProbesTellFloor). "
+                "TLC emits an access history for every "
                 "state-changing transition, per state every state-preserving call (two covers: two pools without "
                 "replays, one pool with `known` in the state and every replay from every state), every history of "
                 "exactly 3 calls (no VIEW; with replays in the thorough tier) and seeded pseudo-random histories of "
@@ -88,7 +97,8 @@ def run(chk, replay=None):
         "RemoveKESOpCertCacheEntry forgets the pool's counter by design: 'previously accepted' means since the last eviction",
         "the KES evolution checked is the one the authenticator derives (0 without a slot, slot/129600 - payload.KESPeriod with one)",
         "a replay's source is a message that was fully genuine (id, certificate, KES) when presented, accepted or not; replays change one component only",
-        "the 24-call histories are a pseudo-random sample (seeded by VERIF_SEED); the transition cover is complete for the models' 256 states each; exhaustive histories have length 3",
+        "the 24-call histories are a pseudo-random sample (seeded by VERIF_SEED); the transition cover is complete for the models' 256 states each; exhaustive histories have length 3 (all single-fault messages) and 4 / 5 (genuine messages with Reg / Unreg / Evict of one pool)",
+        "the counter floor belongs to the cold key: leaving and re-entering the registered set does not lift it (only RemoveKESOpCertCacheEntry does); probes run in sequence behind one history because none changes the authenticator",
     ]
     drv = vlib.go_build("c46")
     if replay:
@@ -102,10 +112,17 @@ def run(chk, replay=None):
         vlib.run_driver(chk, drv, [path], timeout=300, env=env)
         return
     if chk.tier == "quick":
-        files = _tlc_all(chk, ["DmqAuth.cfg", "DmqAuthReplay.cfg", "DmqAuthHist.cfg", "DmqAuthChain.cfg"], 240)
+        files = _tlc_all(chk, ["DmqAuth.cfg", "DmqAuthReplay.cfg", "DmqAuthHist.cfg", "DmqAuthChain.cfg",
+                               "DmqAuthChurn.cfg"], 240)
     else:
-        files = _tlc_all(chk, ["DmqAuth.cfg", "DmqAuthReplay.cfg", "DmqAuthThorough.cfg", "DmqAuthChainThorough.cfg"], 540)
+        files = _tlc_all(chk, ["DmqAuth.cfg", "DmqAuthReplay.cfg", "DmqAuthThorough.cfg", "DmqAuthChainThorough.cfg",
+                               "DmqAuthChurnThorough.cfg"], 540)
     vlib.run_driver(chk, drv, files, timeout=400)
+    # the churn dimension must not be vacuous: the spec marks the histories of the shape accepted / Unreg(p) /
+    # Reg(p) / lower counter of p, and every state-changing transition of the covers carries probes
+    if not chk.extra.get("churn_histories") or not chk.extra.get("probe_calls"):
+        raise vlib.MachineryError("DmqAuth: no churn history / no probe was generated (churn_histories=%r probe_calls=%r)"
+                                  % (chk.extra.get("churn_histories"), chk.extra.get("probe_calls")))
     if chk.tier == "thorough":
         _binding_selftest(chk, drv, files[0], lambda s: s["c"]["op"] == "verify" and s["e"]["ok"])
     chk.extra["invariants"] = INVS.split()
